@@ -1859,3 +1859,16 @@ Proof.
     destruct (clean_load _ _ _ (clean_append _ _ _ _ _ Cl1 W)) as [nr' Hl'].
     exists s', nr'. split; [exact Hl'|exact V'].
 Qed.
+
+(* NUL-free, non-empty paths within the record-size limit are well-formed. *)
+Lemma nul_free_wf_path (p : bytes) :
+  p <> [] -> nul_free p = true ->
+  N.of_nat (length p + padding (length p) + 4) <= kMaxRecordSize -> wf_path p = true.
+Proof.
+  intros Hne Hnf Hsz. unfold wf_path. apply andb_true_iff. split; [|lia].
+  destruct (rev p) as [|b q] eqn:Er.
+  - exfalso. apply Hne. apply (f_equal (@rev byte)) in Er. rewrite rev_involutive in Er. exact Er.
+  - unfold nul_free in Hnf. rewrite forallb_forall in Hnf. apply Hnf.
+    assert (H : In b (rev p)) by (rewrite Er; left; reflexivity).
+    apply in_rev. exact H.
+Qed.
